@@ -171,6 +171,76 @@ def capture_states():
     return found
 
 
+class _Collector:
+    """Exhaustive membership exploration (E1, real cores) used as a state generator: one snapshot per class
+    (instance, local Supvisors state, role, Master known, Master state as last published to it)."""
+
+    def __init__(self):
+        from ..drivers.cluster import Cluster
+        outer = self
+
+        class Gen(Cluster):
+            name = 'c17-generator'
+
+            def observe(self, w, cfg):
+                for i in w.live():
+                    s = w.sups[i]
+                    m = s.state_modes.master_identifier
+                    ms = s.state_modes.master_state
+                    cls = (s.fsm.state.name, 'master' if m == s.ident else 'slave' if m else 'no-master',
+                           ms.name if ms is not None else None)
+                    if cls not in outer.found:
+                        outer.found[cls] = (i, W.snapshot(w))
+                return super().observe(w, cfg)
+        self.found = {}
+        self.driver = Gen('C17', [])
+        self.stats = []
+
+    def configs(self, t):
+        from .membership import cfg as mcfg
+        specs = [dict(late=(), T=3, D=0), dict(late=(2,), T=4, D=0, warm=4)]
+        if t == 'thorough':
+            specs += [dict(late=(), T=4, D=0), dict(late=(2,), T=5, D=0), dict(late=(2,), T=3, D=1, warm=4),
+                      dict(late=(), T=3, D=1)]
+        cfgs = []
+        for sp in specs:
+            c = mcfg(3, sp['T'], sp['D'], late=sp['late'], rules=True, warm=sp.get('warm', 0),
+                     name=f"c17-gen-late{list(sp['late'])}-T{sp['T']}-D{sp['D']}-warm{sp.get('warm', 0)}")
+            c['nicks'] = ['n1', 'n2', 'n3']
+            c['apps'] = RULES
+            c['extra_groups'] = {'U': {'u': {}}}
+            c['options']['conciliation_strategy'] = 'USER'
+            cfgs.append(c)
+        return cfgs
+
+    def one(self, c):
+        from ..explorer import explore
+        self.found = {}
+        r = explore(self.driver, c, deviations=c['D'], closure='none')
+        if r.error:
+            raise RuntimeError(r.error)
+        return self.found, {'name': c['name'], 'states': r.states, 'transitions': r.transitions,
+                            'validated': r.validated, 'capped': r.capped}
+
+    def run(self, t):
+        import multiprocessing
+        cfgs = self.configs(t)
+        with multiprocessing.get_context('fork').Pool(min(16, len(cfgs))) as pool:
+            results = pool.map(_gen_one, cfgs, chunksize=1)
+        found = {}
+        for f, st in results:       # configurations in their declared order: the pick is deterministic
+            for cls, v in f.items():
+                found.setdefault(cls, v)
+            self.stats.append(st)
+        self.found = found
+        W.activate(None)
+        return found
+
+
+def _gen_one(c):
+    return _Collector().one(c)
+
+
 def internal_state(s):
     c = Canon()
     st = (c.walk(s.starter), c.walk(s.stopper), c.walk(s.failure_handler), s.fsm.state.name,
@@ -186,9 +256,18 @@ def main():
     if unknown:
         out.report({'clause': 'method-without-documented-gate', 'signature': 'C17:undocumented:' + unknown[0],
                     'methods': unknown}, {'driver': 'C17', 'config': {}, 'events': []})
-    blobs = capture_states()
+    blobs = {k: (0 if k[1] == 'master' else 1, b) for k, b in capture_states().items()}
     cov = out.coverage
     cov['states_reached'] = sorted(f'{s}/{r}' for s, r in blobs)
+    # every (local state, role, believed Master state) class reachable in an exhaustive membership exploration
+    gen = _Collector()
+    for cls, (i, blob) in gen.run(tier()).items():
+        blobs[(cls[0], f'{cls[1]}[master_state={cls[2]}]')] = (i, blob)
+    cov['generator'] = gen.stats
+    cov['states'] = sum(x['states'] for x in gen.stats)
+    cov['transitions'] = sum(x['transitions'] for x in gen.stats)
+    cov['traces_validated_against_impl'] = sum(x['validated'] for x in gen.stats)
+    cov['classes_from_generator'] = sorted(f'{c[0]}/{c[1]}/{c[2]}' for c in gen.found)
     calls = 0
     distinct = set()
     samples = []
@@ -200,9 +279,8 @@ def main():
             wu.apply(('tick', i))
             wu.drain()
     if wu.sups[0].fsm.state.name == 'SYNCHRONIZATION':
-        blobs[('SYNCHRONIZATION', 'user-option')] = W.snapshot(wu)
-    for (state, role), blob in sorted(blobs.items()):
-        idx = 1 if role == 'slave' else 0
+        blobs[('SYNCHRONIZATION', 'user-option')] = (0, W.snapshot(wu))
+    for (state, role), (idx, blob) in sorted(blobs.items()):
         for method in methods:
             g = grid(method)
             if g is None:
